@@ -349,7 +349,7 @@ func c18GenCase(rt *rapid.T) c18Case {
 
 func TestC18(t *testing.T) {
 	c := vf.New(t, "C18", "enumeration: every address FF10-FF3F x every value in a fixed template (power-cycle, write while on, run, power off, same write while off, power on) with all 20 registers, NR52 and (channel 3 off) all 16 wave cells read back after every step; "+
-		"rapid: histories of 1-80 chunks of 1-3 operations (register writes of arbitrary values, NR52 writes, wave RAM writes, writes to unused addresses, runs of 0-40000 machine cycles), same read-back after every operation. "+
+		"rapid: histories of 1-80 chunks of 1-3 operations (register writes of arbitrary values, NR52 writes, wave RAM writes, writes to unused addresses, runs of 0-40000 machine cycles), same read-back after every operation; plus every channel left playing for 70 000 cycles with envelope/sweep/length values that reach their end stops. "+
 		"Non-trivial: the history contains a register write made with power on (followed by its read-back) or a power-off that follows such writes. Distinct = hash of the operation list (enumeration: distinct by construction).")
 	defer c.Flush()
 	c.RunReplays()
@@ -383,6 +383,56 @@ func TestC18(t *testing.T) {
 		}
 		c.Bulk("enum:single-write-template", n, nt)
 		c.Exhaustive("every address FF10-FF3F x all 256 values, written once with power on and once with power off around a power cycle (partitioned across shards)")
+	})
+
+	// registers of a channel that is actually playing: envelope, sweep, length and frequency units run for
+	// long enough to reach their end stops (70 000 machine cycles: 4 envelope clocks, 8 sweep clocks, 17 length
+	// clocks) - none of that may show in what the registers read back
+	c.Sub("playing-channels", func(t *testing.T) {
+		var n int64
+		idx := 0
+		failed := 0
+		type chn struct{ r0, r1, r2, r3, r4 uint16 }
+		for ci, ch := range []chn{{0xff10, 0xff11, 0xff12, 0xff13, 0xff14}, {0, 0xff16, 0xff17, 0xff18, 0xff19}, {0xff1a, 0xff1b, 0xff1c, 0xff1d, 0xff1e}, {0, 0xff20, 0xff21, 0xff22, 0xff23}} {
+			for _, v2 := range []uint8{0x11, 0x19, 0xe9, 0xf1, 0x08, 0x87, 0xda, 0x22, 0x60, 0x40} {
+				for _, v0 := range []uint8{0x00, 0x11, 0x19, 0x77, 0x80} {
+					if ch.r0 == 0 && v0 != 0 || ci == 2 && v0 != 0x80 && v0 != 0x00 {
+						continue
+					}
+					for _, v1 := range []uint8{0x00, 0x3f, 0x80, 0xfe} {
+						for _, v4 := range []uint8{0x80, 0xc0, 0x87, 0xc3} {
+							idx++
+							if !c.Env.Mine(idx) {
+								continue
+							}
+							ops := []c18Op{{K: "w", A: 0xff26, V: 0x00}, {K: "w", A: 0xff26, V: 0x80}, {K: "w", A: 0xff25, V: 0xff}, {K: "w", A: 0xff24, V: 0x77}}
+							if ch.r0 != 0 {
+								ops = append(ops, c18Op{K: "w", A: ch.r0, V: v0})
+							}
+							ops = append(ops, c18Op{K: "w", A: ch.r1, V: v1}, c18Op{K: "w", A: ch.r2, V: v2}, c18Op{K: "w", A: ch.r3, V: uint8(idx * 29)}, c18Op{K: "w", A: ch.r4, V: v4},
+								c18Op{K: "run", N: 20000}, c18Op{K: "run", N: 50000}, c18Op{K: "w", A: ch.r4, V: v4}, c18Op{K: "run", N: 35000})
+							cas := c18Case{Ops: ops}
+							r := c18Exec(cas)
+							n++
+							if idx%173 == 0 {
+								c.Sample("enum:playing-channel", cas)
+							}
+							if r.err != nil && !c.Fail("apuregs", r.sig, r.err.Error(), cas) {
+								failed++
+								if failed <= 3 {
+									t.Errorf("%v", r.err)
+								}
+								if failed > 50 {
+									return
+								}
+							}
+						}
+					}
+				}
+			}
+		}
+		c.Bulk("enum:playing-channel", n, n)
+		c.Exhaustive("each channel started with 10 envelope/level values x sweep settings x 4 length values x 4 trigger values and left playing for 70 000 and, after a re-trigger, 35 000 machine cycles; every register read back after every step")
 	})
 
 	c.Rapid("histories", 8000, 200000, func(rt *rapid.T) {
